@@ -43,6 +43,7 @@ var (
 	flagSelfTest = flag.Bool("selftest", false, "run only the determinism self-test of the property")
 	flagNoEvid   = flag.Bool("noevidence", false, "do not write the evidence file (used by development scripts)")
 	flagMode     = flag.String("mode", "", "restrict the check to one sub-mode (development)")
+	flagNoRegress = flag.Bool("noregress", false, "skip the committed regression tapes (to see what the search alone finds)")
 	flagPrewarm  = flag.Bool("prewarm", false, "build the plain and the race worker once to warm the Go build cache, then exit")
 )
 
@@ -642,6 +643,9 @@ func check(spec *propSpec, b *build) int {
 	regDir := filepath.Join(root, "regress", spec.id)
 	regs, _ := filepath.Glob(filepath.Join(regDir, "*.json"))
 	sort.Strings(regs)
+	if *flagNoRegress {
+		regs = nil
+	}
 	regressed := 0
 	for _, rp := range regs {
 		fr, herr := replayOne(b, rp)
